@@ -638,8 +638,8 @@ Section Preserve.
     constructor; cbn [with_clients st_store st_log st_base st_hi st_queue st_bufs st_clients st_cache st_epoch]; auto.
     - exists pub, r. split; [exact Hlog|]. split; [exact Hr|]. split; [exact Hall|]. split; [exact Hbuf|].
       intros c' y Hf. change (hist_of _) with (hist_of st). destruct (N.eq_dec c' c) as [->|Hne].
-      + rewrite find_put_client_same in Hf. injection Hf as <-. rewrite Et. apply Hupd; auto.
-      + rewrite find_put_client_other in Hf by exact Hne. apply Hcl, Hf.
+      + rewrite find_put_client_same in Hf. injection Hf as <-. rewrite Et. apply Hupd; auto. exact (Hcl c x Ec).
+      + rewrite find_put_client_other in Hf by exact Hne. exact (Hcl c' y Hf).
     - intros T. pose proof (count_put_client T c x' _ Gn) as H. rewrite Ec, Hh in H.
       assert (count_subs T (put_client c x' (st_clients st)) = count_subs T (st_clients st)) as -> by lia.
       apply Gr.
@@ -660,9 +660,8 @@ Section Preserve.
         * intros T. unfold has_sub_on, handle. rewrite Es. destruct (c_h x), it; reflexivity.
         * intros r Hr Hall Hc. change (st_epoch st) with (h_epoch (hist_of st)).
           eapply cinv_deliver_buf; eauto.
-          -- intros it' Hit'. apply proj_item_batch in Hit' as (b & Hb & ->).
-             rewrite Forall_forall in Hall. specialize (Hall b Hb). cbn [hist_of h_hi]. lia.
-          -- unfold buf_items in Enth. destruct (find_buf (c_ts x) (st_bufs st)); exact Enth.
+          intros it' Hit'. apply proj_item_batch in Hit' as (b & Hb & ->).
+          rewrite Forall_forall in Hall. specialize (Hall b Hb). cbn [hist_of h_hi]. lia.
       + cbn [fst]. eapply ginv_put; eauto.
         * unfold handle. destruct (c_h x), it; reflexivity.
         * intros T. unfold has_sub_on, handle. rewrite Es. destruct (c_h x), it; reflexivity.
